@@ -353,7 +353,10 @@ mutual
       (each with its own extra indent); `prop` is a property line written at the level of the
       sequence (e.g. directly after a block); `imp` an import line `{?src.*}` / `{?src.n}`;
       `unit` a `$unit` directive (`broken`: one that cannot be carried out).  `pfx` = the dotted parent written in front of
-      every clause keyword of the block (`engine.@case …`, compact form; `[]` = plain form). -/
+      every clause keyword of the block (`engine.@case …`, compact form; `[]` = plain form).
+      `trailer`: lines written after an explicit `@end` but indented deeper than it (`te` = how
+      much deeper than the minimum): they are outside the block; in the hierarchy they hang below
+      the `@end` line, whose `@N` is cleaned from their names. -/
   inductive Item where
     | node (name : String) (isMod : Bool) (v : Int) (props : List (Nat × PKind))
     | prop (p : PKind)
@@ -367,8 +370,8 @@ mutual
   /-- The rest of a block after a clause. -/
   inductive Chain where
     | case (c : Bool) (extra : Nat) (body : Items) (more : Chain)
-    | els (extra : Nat) (body : Items) (explicitEnd : Bool)
-    | fin (explicitEnd : Bool)
+    | els (extra : Nat) (body : Items) (explicitEnd : Bool) (te : Nat) (trailer : Items)
+    | fin (explicitEnd : Bool) (te : Nat) (trailer : Items)
 end
 
 /-- The prefix of the block an item is (if it is one). -/
@@ -409,8 +412,9 @@ mutual
     | .cons i rest => i.render k (needsEnd i.blockPfx rest.firstPfx) ++ rest.render k
   def Chain.render (k : Nat) (pfx : List String) (forceEnd : Bool) : Chain → List Line
     | .case c e body more => ⟨k, pfx, .case c⟩ :: (body.render (k + 1 + e) ++ more.render k pfx forceEnd)
-    | .els e body ee => ⟨k, pfx, .els⟩ :: (body.render (k + 1 + e) ++ endLine k pfx (ee || forceEnd))
-    | .fin ee => endLine k pfx (ee || forceEnd)
+    | .els e body ee te tr => ⟨k, pfx, .els⟩ :: (body.render (k + 1 + e) ++
+        (endLine k pfx (ee || forceEnd) ++ if ee then tr.render (k + 1 + te) else []))
+    | .fin ee te tr => endLine k pfx (ee || forceEnd) ++ if ee then tr.render (k + 1 + te) else []
 end
 
 mutual
@@ -423,14 +427,20 @@ mutual
     | .imp src nd => [.imp pre src nd]
     | .unit _ b => if b then [.fail] else []
     | .group n _ body => body.sem (pre ++ [n])
-    | .block pfx c _ body more => if c then body.sem (pre ++ pfx) else more.sem (pre ++ pfx)
+    | .block pfx c _ body more =>
+      (if c then body.sem (pre ++ pfx) else more.sem (pre ++ pfx)) ++ more.tail (pre ++ pfx)
   def Items.sem (pre : List String) : Items → List Eff
     | .nil => []
     | .cons i rest => i.sem pre ++ rest.sem pre
   def Chain.sem (pre : List String) : Chain → List Eff
     | .case c _ body more => if c then body.sem pre else more.sem pre
-    | .els _ body _ => body.sem pre
-    | .fin _ => []
+    | .els _ body _ _ _ => body.sem pre
+    | .fin _ _ _ => []
+  /-- The lines written below an explicit `@end`: outside the block, always effective. -/
+  def Chain.tail (pre : List String) : Chain → List Eff
+    | .case _ _ _ more => more.tail pre
+    | .els _ _ ee _ tr => if ee then tr.sem pre else []
+    | .fin ee _ tr => if ee then tr.sem pre else []
 end
 
 mutual
@@ -450,8 +460,8 @@ mutual
     | .cons i rest => i.occ pre sel ++ rest.occ pre sel
   def Chain.occ (pre : List String) (sel : List Bool) (done : Bool) : Chain → List (List Bool × Eff)
     | .case c _ body more => body.occ pre ((c && !done) :: sel) ++ more.occ pre sel (done || c)
-    | .els _ body _ => body.occ pre ((!done) :: sel)
-    | .fin _ => []
+    | .els _ body ee _ tr => body.occ pre ((!done) :: sel) ++ (if ee then tr.occ pre sel else [])
+    | .fin ee _ tr => if ee then tr.occ pre sel else []
 end
 
 /-- The occurrences all of whose enclosing clauses are selected. -/
